@@ -85,6 +85,13 @@ def run(ctx):
                     if len(e["c2"]) == 0 and cut != len(ct) and len(ct) - cut >= 97:
                         continue
                     dec.append({"kind": "dec", "d": c["d"], "mode": mode, "ct": ct[:len(ct) - cut], "want": "err", "why": "truncated by %d" % cut})
+    # the ASN.1 form: every single byte of it changed
+    nas = 0
+    for x in rows:
+        c, e = x["case"], x["expect"]
+        if e["ok"] and 0 < c["mlen"] <= (200 if thorough else 40) and (thorough or nas < 6):
+            dec.append({"kind": "decasn1sweep", "d": c["d"], "ct": e["c1c3c2"], "pt_len": len(e["c2"]), "src": c})
+            nas += 1
     # invalid-curve points built by the specification
     inv = tlc_table(ctx, [{"kind": "invalidcurve", "d": STD_D, "x0": x0, "y0": y0, "mf": 0, "mlen": ml}
                           for (x0, y0, ml) in [("5", "7", 16), ("1", "1", 1), ("2", "3", 33), (hex(rnd.getrandbits(200))[2:], hex(rnd.getrandbits(255))[2:], 20)]], "inv")
@@ -100,7 +107,7 @@ def run(ctx):
     ctx.harness(["c01-real", casef, obsf], timeout=3000)
     obs = read_ndjson(obsf)
     exp = {json.dumps(x["case"], sort_keys=True): x["expect"] for x in rows}
-    ok = 0
+    ok = nasn = 0
     for o in obs:
         c, g = o["case"], o["got"]
         probs = []
@@ -134,6 +141,12 @@ def run(ctx):
             else:
                 if not g["err"]:
                     probs.append("forged ciphertext accepted (%s): returned %d bytes" % (c["why"], len(g["pt"])))
+        elif c["kind"] == "decasn1sweep":
+            if g.get("marshal_err") or not g.get("plain_ok"):
+                probs.append("the ASN.1 form of the standard's ciphertext does not decrypt (%s)" % g.get("marshal_err", ""))
+            nasn += g.get("tried", 0)
+            for a in (g.get("accepted") or [])[:3]:
+                probs.append("ASN.1 ciphertext accepted after a single-byte change: " + a)
         if probs:
             short = {k: (v if len(str(v)) < 80 else str(v)[:70] + "..") for k, v in c.items() if k != "src"}
             ctx.violation("%s: %s" % (json.dumps(short, sort_keys=True), "; ".join(probs)), {"case": c, "observed": g})
@@ -141,6 +154,7 @@ def run(ctx):
             ok += 1
     ctx.log("cases conforming: %d / %d (%d encryptions, %d decryption verdicts incl. %d invalid-curve)" % (ok, len(obs), len(rows), len(dec), 2 * len(inv)))
     ctx.cov["evaluations"] = len(obs)
+    ctx.cov["asn1_single_byte_changes"] = nasn
     ctx.cov["distinct_nontrivial"] = len(obs)
     ctx.cov["exhaustive"] = False
     ctx.cov["rule"] = ("encryption case = distinct (key incl. short-coordinate keys, plaintext length incl. 0 and around multiples of 32, content family, scripted nonce); "
